@@ -78,7 +78,7 @@ class Oracle:
         """18g: files the user put into the cache directory (FOREIGN operations) that are not cache files
         must never be modified or deleted.  Files the cache itself creates (config, temporaries) are its own."""
         if obs.kind == "FOREIGN" and not obs.crashed:
-            p = CACHE_DIR + "/" + obs.op["name"]
+            p = obs.foreign_path or (CACHE_DIR + "/" + obs.op["name"])
             ent = obs.post.get(p)
             if ent is not None and ent[0] == "f" and p not in self.foreign:
                 self.foreign[p] = (ent[3], ent[4])
